@@ -190,6 +190,9 @@ func c07HeaderQ(r *rand.Rand, tail bool) (lines []Bs, intended []c07Range, extAf
 		var parts []string
 		for i := 0; i < nr; i++ {
 			v := c07Media(r, true)
+			if i > 0 && r.Intn(4) == 0 { // the same range once more, usually with another weight
+				v = string(intended[len(intended)-1-r.Intn(i)].Value)
+			}
 			var sb strings.Builder
 			sb.WriteString(v)
 			rg := c07Range{Value: Bs(v)}
@@ -231,6 +234,58 @@ func c07HeaderQ(r *rand.Rand, tail bool) (lines []Bs, intended []c07Range, extAf
 }
 
 var _ = c07HeaderQ
+
+// c07LongHeader writes a header of many ranges (around and well beyond 32, on one line or spread over several) whose
+// decisive range comes last: fillers that match no offer, optionally a weak range for one offer at the front, and a
+// strong range for another (or the same) offer at the very end.
+func c07LongHeader(r *rand.Rand, offers []Bs) []Bs {
+	n := []int{28, 30, 31, 32, 33, 34, 40, 64, 100, 250}[r.Intn(10)]
+	var parts []string
+	if r.Intn(2) == 0 {
+		parts = append(parts, string(offers[r.Intn(len(offers))])+";q=0.1")
+	}
+	for j := 0; j < n; j++ {
+		parts = append(parts, fmt.Sprintf("fill/t%d;q=0.%d", j, 1+r.Intn(8)))
+	}
+	last := string(offers[r.Intn(len(offers))])
+	if i := strings.IndexByte(last, ';'); i >= 0 {
+		last = last[:i]
+	}
+	parts = append(parts, strings.TrimSpace(last)+[]string{";q=0.9", "", ";q=0.95"}[r.Intn(3)])
+	nl := 1 + r.Intn(3)
+	var lines []Bs
+	per := (len(parts) + nl - 1) / nl
+	for len(parts) > 0 {
+		k := per
+		if k > len(parts) {
+			k = len(parts)
+		}
+		lines = append(lines, Bs(strings.Join(parts[:k], ", ")))
+		parts = parts[k:]
+	}
+	return lines
+}
+
+// c07DupHeader lists one range twice with two weights and puts a competitor for another offer between the weights
+// (or level with the higher one), in every order, on one line or two.
+func c07DupHeader(r *rand.Rand, offers []Bs) []Bs {
+	bare := func(o Bs) string {
+		v := string(o)
+		if i := strings.IndexByte(v, ';'); i >= 0 {
+			v = v[:i]
+		}
+		return strings.TrimSpace(v)
+	}
+	a := bare(offers[r.Intn(len(offers))])
+	b := bare(offers[r.Intn(len(offers))])
+	hi, mid, lo := "0.9", []string{"0.5", "0.9", "0.21"}[r.Intn(3)], []string{"0.2", "0.05", "0.001"}[r.Intn(3)]
+	parts := []string{a + ";q=" + hi, b + ";q=" + mid, a + ";q=" + lo}
+	r.Shuffle(len(parts), func(i, j int) { parts[i], parts[j] = parts[j], parts[i] })
+	if r.Intn(3) == 0 {
+		return []Bs{Bs(parts[0]), Bs(parts[1] + ", " + parts[2])}
+	}
+	return []Bs{Bs(strings.Join(parts, ", "))}
+}
 
 func c07Offers(r *rand.Rand) []Bs {
 	n := r.Intn(5)
@@ -291,7 +346,13 @@ func (c07) Gen(r *rand.Rand, tier string, i int) any {
 		if r.Intn(2) == 0 {
 			def = Bs(c07Media(r, false))
 		}
-		return c07In{Kind: "neg", Lines: ls, Offers: c07Offers(r), Default: def, ExtAfterQ: ext}
+		offers := c07Offers(r)
+		if len(offers) > 0 && r.Intn(10) == 0 {
+			ls, ext = c07LongHeader(r, offers), false
+		} else if len(offers) > 1 && r.Intn(8) == 0 {
+			ls, ext = c07DupHeader(r, offers), false
+		}
+		return c07In{Kind: "neg", Lines: ls, Offers: offers, Default: def, ExtAfterQ: ext}
 	case k < 18:
 		var ls []Bs
 		switch r.Intn(8) {
@@ -311,6 +372,12 @@ func (c07) Gen(r *rand.Rand, tier string, i int) any {
 			}
 		}
 		code := []int{0, 0, 201, 204, 204}[r.Intn(5)]
+		if len(offers) > 0 && r.Intn(8) == 0 {
+			return c07In{Kind: "handler", Lines: c07LongHeader(r, offers), Offers: offers, Code: code}
+		}
+		if len(offers) > 1 && r.Intn(8) == 0 {
+			return c07In{Kind: "handler", Lines: c07DupHeader(r, offers), Offers: offers, Code: code}
+		}
 		if r.Intn(3) == 0 {
 			var steps [][]Bs
 			for j := 2 + r.Intn(4); j > 0; j-- {
